@@ -166,6 +166,11 @@ func (cr *CheckRun) VerifyEmittedFuncs(job *EmittedJob, sel func(name string) bo
 				replay = func(fl *Failure) { job.RF.ReplayRoute(fl, f) }
 			}
 		}
+		if job.PF != nil {
+			if _, ok := job.PF.Fns[f]; ok {
+				replay = func(fl *Failure) { job.PF.ReplayParams(cr, job, fl, f) }
+			}
+		}
 		cr.verifyTagged(e, job.Em.Entry.Name, replay)
 	}
 	if job.RF != nil {
